@@ -88,9 +88,13 @@ class ListTensor(Operator):
             and sub_equals(expressions, 0, 0)
         ):
             indices = [sub(e, 0, 1).indices() for e in expressions]
+            # The component tensor must bind the indices in the same
+            # order as they are used to index v (no transposition)
             if all(
-                i[0] == k and all(isinstance(subindex, Index) for subindex in i[1:])
-                for k, i in enumerate(indices)
+                i[0] == k
+                and all(isinstance(subindex, Index) for subindex in i[1:])
+                and sub(e, 1).indices() == i[1:]
+                for k, (e, i) in enumerate(zip(expressions, indices))
             ):
                 return sub(e0, 0, 0)
 
